@@ -445,6 +445,9 @@ V("f-allranks-stored", "fire", ["C16", "C17"], PO, "        return {w: self.rank
   "        return {w: self.ranks[w] for w in self.ranks.keys()}\n", note="returns the cache (None for unranked worlds) instead of computing")
 V("s-allranks-loop", "silent", ["C16", "C17", "C18"], PO, "        return {w: self.rank_world(w) for w in self.ranks.keys()}\n",
   "        out = {}\n        for w in list(self.ranks):\n            out[w] = self.rank_world(w)\n        return out\n", note="loop form")
+V("s-queries-copy", "silent", ["C10"], "inference/queries.py", "        self.conditionals = belief_base.conditionals\n", "        self.conditionals = dict(belief_base.conditionals)\n", note="the query container keeps a copy of the mapping")
+V("s-queries-comp", "silent", ["C10"], "inference/queries.py", "        self.conditionals = query_dict\n", "        self.conditionals = {k: v for k, v in query_dict.items()}\n")
+V("f-queries-renumber", "fire", ["C10"], "inference/queries.py", "        self.conditionals = query_dict\n", "        self.conditionals = dict(enumerate(query_dict.values(), start=1))\n", note="sparse / 0-based keys of a query mapping are renumbered")
 V("f-tpo2ranks-return-in-loop", "fire", ["C18"], PO, "            ranks[world] = rank_function(layer_num)\n    return ranks\n", "            ranks[world] = rank_function(layer_num)\n        return ranks\n")
 V("s-avg-guard-by-count", "silent", ["C14", "C06", "C13"], INF, "                \"average_query_time_ms\": total_inference_time / len(queries)\n                if queries\n                else 0,\n",
   "                \"average_query_time_ms\": total_inference_time / len(queries)\n                if len(queries)\n                else 0,\n", note="the division guarded by the count instead of the mapping")
